@@ -9,15 +9,115 @@ package main
 
 import (
 	"fmt"
+	"go/constant"
+	"go/token"
 	"strings"
 
 	"golang.org/x/tools/go/ssa"
 )
 
 func c09PresentChildPrinted(w *World, r *Report, ctxs map[string]*CtxInfo) {
-	const rule = "C09/present-child-printed"
+	presentChildUsed(w, r, ctxs, "C09/present-child-printed", formatterFuncs(w), nil, false, "prints", "the text the function returns", "the formatter sees the part and prints nothing for it")
+}
+
+// C07/present-child-modelled: the same question asked of the model visitor - where it finds an optional part of a declaration
+// present (a field name after the type, an explicit type in front of a length field, a pad character), something read from that part
+// reaches the model (what the routine returns or writes through the visitor). Documentation strings are exempt: by C08 they carry no
+// meaning for the generated code.
+func c07PresentChildModelled(w *World, r *Report, ctxs map[string]*CtxInfo) {
+	var fns []*ssa.Function
+	for _, fn := range parsePhaseFuncs(w) {
+		if fn.Pkg == w.Parser && recvNamedCore(fn) == "PacketDslVisitorImpl" {
+			fns = append(fns, fn)
+		}
+	}
+	presentChildUsed(w, r, ctxs, "C07/present-child-modelled", fns, map[string]bool{"STRING_LITERAL": true}, true, "models", "the model", "the declaration is compiled as if the part had not been written")
+}
+
+func presentChildUsed(w *World, r *Report, ctxs map[string]*CtxInfo, rule string, fns []*ssa.Function, exempt map[string]bool, flags bool, verb, sink, consequence string) {
 	n := 0
-	for _, fn := range formatterFuncs(w) {
+	for _, fn := range fns {
+		// a presence question whose answer decides nothing (`if ctx.X() != nil { }`): the arm that dealt with the part is gone
+		forEachInstr(fn, func(_ *ssa.BasicBlock, ins ssa.Instruction) {
+			bo, ok := ins.(*ssa.BinOp)
+			if !ok || (bo.Op != token.NEQ && bo.Op != token.EQL) {
+				return
+			}
+			var other ssa.Value
+			switch {
+			case isNilConst(bo.Y):
+				other = bo.X
+			case isNilConst(bo.X):
+				other = bo.Y
+			default:
+				return
+			}
+			call, ok := stripIdentity(other).(*ssa.Call)
+			if !ok {
+				return
+			}
+			_, ai, ok := w.accessorOf(call, ctxs)
+			if !ok || !ai.Known || ai.What == "stop token" || ai.What == "start token" {
+				return
+			}
+			used := false
+			if bo.Referrers() != nil {
+				for _, ref := range *bo.Referrers() {
+					if _, isDbg := ref.(*ssa.DebugRef); !isDbg {
+						used = true
+					}
+				}
+			}
+			if used {
+				return
+			}
+			child := strings.TrimSuffix(strings.TrimSuffix(ai.What, "="), "*")
+			if ci := ctxs[ai.Ctx]; ci != nil && strings.HasSuffix(ai.What, "=") {
+				child = ci.Labels[child]
+			}
+			if exempt[child] {
+				return
+			}
+			r.fail(rule, fmt.Sprintf("%s %s %s.%s where it finds it present (the question is asked)", fnKey(fn), verb, ai.Ctx, child), w.instrPos(bo), fmt.Sprintf("the routine asks whether %s of %s is present and does nothing with the answer: %s", child, ai.Ctx, consequence))
+		})
+		// a case for a kind of child (`case *gen.XContext:`) whose arm is empty: the test decides nothing and the node is not used
+		forEachInstr(fn, func(_ *ssa.BasicBlock, ins ssa.Instruction) {
+			ta, ok := ins.(*ssa.TypeAssert)
+			if !ok || !ta.CommaOk || ta.Referrers() == nil {
+				return
+			}
+			cn := grammarCtxName(ta.AssertedType)
+			if cn == "" {
+				return
+			}
+			decides, valueUsed := false, false
+			for _, ref := range *ta.Referrers() {
+				ex, ok := ref.(*ssa.Extract)
+				if !ok || ex.Referrers() == nil {
+					continue
+				}
+				for _, r2 := range *ex.Referrers() {
+					if _, isDbg := r2.(*ssa.DebugRef); isDbg {
+						continue
+					}
+					if ex.Index == 0 {
+						valueUsed = true
+						continue
+					}
+					if iff, ok := r2.(*ssa.If); ok {
+						if b := iff.Block(); len(b.Succs) == 2 && skipEmptyBlocks(b.Succs[0]) != skipEmptyBlocks(b.Succs[1]) {
+							decides = true
+						}
+					} else {
+						decides = true
+					}
+				}
+			}
+			if decides || valueUsed {
+				return
+			}
+			r.fail(rule, fmt.Sprintf("%s %s a child of kind %s where it finds one (a case exists)", fnKey(fn), verb, cn), w.instrPos(ta), fmt.Sprintf("the routine tests a child for being a %s and does nothing on either outcome: %s", cn, consequence))
+		})
 		counts := map[string]int{}
 		for _, bb := range fn.Blocks {
 			cond := branchCond(bb)
@@ -51,8 +151,11 @@ func c09PresentChildPrinted(w *World, r *Report, ctxs map[string]*CtxInfo) {
 			if lr != nil && ci.IsTok[child] && isPunctLiteral(lr.Literals) {
 				continue
 			}
+			if exempt[child] {
+				continue
+			}
 			n++
-			kb := fmt.Sprintf("%s prints %s.%s where it finds it present", fnKey(fn), ai.Ctx, child)
+			kb := fmt.Sprintf("%s %s %s.%s where it finds it present", fnKey(fn), verb, ai.Ctx, child)
 			counts[kb]++
 			key := kb
 			if counts[kb] > 1 {
@@ -63,21 +166,69 @@ func c09PresentChildPrinted(w *World, r *Report, ctxs map[string]*CtxInfo) {
 			if lr != nil && ci.IsTok[child] && len(lr.Literals) == 1 && keywordPresenceFlows(fn, call, lr.Literals[0]) {
 				printed = true
 			}
-			if !printed {
-				printed = blockReachesForward(start, func(ins ssa.Instruction) bool {
-					c2, ok := ins.(*ssa.Call)
-					if !ok {
-						return false
+			if !printed && flags {
+				// the model keeps presence as a flag: the outcome of the test itself, or `true` on the present edge, reaches the model
+				if bo, ok := cond.(*ssa.BinOp); ok && flowsToResult(fn, bo) {
+					printed = true
+				}
+				if !printed && presenceConstFlows(fn, call, func(k *ssa.Const) bool {
+					return k.Value != nil && k.Value.Kind() == constant.Bool && constant.BoolVal(k.Value)
+				}) {
+					printed = true
+				}
+			}
+			if !printed && flags {
+				// presence selects what is built: something created on the present edge (an attribute object of the part's kind)
+				// reaches the model
+				for _, b2 := range fn.Blocks {
+					if printed || !edgeDominates(bb, nn, b2) {
+						continue
 					}
-					// the same part read again (from the same node), its text on the way out
-					if r2, a2, ok := w.accessorOf(c2, ctxs); ok && a2.Known && a2.Ctx == ai.Ctx && a2.What == ai.What && sameValue(r2, recv) {
-						return flowsToResult(fn, c2)
+					for _, ins := range b2.Instrs {
+						switch x := ins.(type) {
+						case *ssa.Alloc:
+							if x.Heap && flowsToResult(fn, x) {
+								printed = true
+							}
+						}
 					}
-					// the whole construct's text
-					if c2.Call.IsInvoke() && c2.Call.Method.Name() == "GetText" && sameValue(c2.Call.Value, recv) {
-						return flowsToResult(fn, c2)
-					}
+				}
+			}
+			uses := func(ins ssa.Instruction) bool {
+				c2, ok := ins.(*ssa.Call)
+				if !ok {
 					return false
+				}
+				// the same part read again (from the same node), its text on the way out
+				if r2, a2, ok := w.accessorOf(c2, ctxs); ok && a2.Known && a2.Ctx == ai.Ctx && a2.What == ai.What && (sameValue(r2, recv) || sameNodePath(w, ctxs, r2, recv)) {
+					return flowsToResult(fn, c2)
+				}
+				// the node (or the part) handed to a routine of the repository, which deals with it
+				if g := c2.Call.StaticCallee(); g != nil && g.Blocks != nil && w.isSubjectFunc(g) && flags {
+					for _, a := range c2.Call.Args {
+						if grammarCtxName(a.Type()) == "" {
+							continue
+						}
+						if sameValue(a, recv) || sameNodePath(w, ctxs, a, recv) || sameValue(a, call) || sameNodePath(w, ctxs, a, call) {
+							return true
+						}
+					}
+				}
+				// the whole construct's text
+				if c2.Call.IsInvoke() && c2.Call.Method.Name() == "GetText" && (sameValue(c2.Call.Value, recv) || sameNodePath(w, ctxs, c2.Call.Value, recv)) {
+					return flowsToResult(fn, c2)
+				}
+				return false
+			}
+			if !printed {
+				printed = blockReachesForward(start, uses)
+			}
+			if !printed {
+				// read before the question was asked (the whole text taken first, then adjusted by what is present)
+				forEachInstr(fn, func(b2 *ssa.BasicBlock, ins ssa.Instruction) {
+					if !printed && b2.Dominates(bb) && uses(ins) {
+						printed = true
+					}
 				})
 			}
 			// the tested value itself is what is printed (x := ctx.X(); if x != nil { ... x.GetText() ... })
@@ -87,11 +238,47 @@ func c09PresentChildPrinted(w *World, r *Report, ctxs map[string]*CtxInfo) {
 			if printed {
 				r.pass(rule, key, w.instrPos(bb.Instrs[len(bb.Instrs)-1]), "")
 			} else {
-				r.fail(rule, key, w.instrPos(bb.Instrs[len(bb.Instrs)-1]), fmt.Sprintf("on the edge where %s of %s is present nothing read from it can reach the text the function returns: the formatter sees the part and prints nothing for it", child, ai.Ctx))
+				r.fail(rule, key, w.instrPos(bb.Instrs[len(bb.Instrs)-1]), fmt.Sprintf("on the edge where %s of %s is present nothing read from it can reach %s: %s", child, ai.Ctx, sink, consequence))
 			}
 		}
 	}
 	if n == 0 {
-		r.fail(rule, "presence tests found", "internal/parser/packet_dsl_formattor.go", "no presence test of an optional grammar child found in the formatter")
+		r.fail(rule, "presence tests found", "internal/parser", "no presence test of an optional grammar child found in the routines examined")
 	}
+}
+
+// sameNodePath: two values are the same grammar node reached by the same chain of accessors from the same start.
+func sameNodePath(w *World, ctxs map[string]*CtxInfo, a, b ssa.Value) bool {
+	for i := 0; i < 6; i++ {
+		a, b = stripIdentity(a), stripIdentity(b)
+		if a == b || sameCellValue(a, b) {
+			return true
+		}
+		ca, ok1 := a.(*ssa.Call)
+		cb, ok2 := b.(*ssa.Call)
+		if !ok1 || !ok2 {
+			return false
+		}
+		ra, aa, ok1 := w.accessorOf(ca, ctxs)
+		rb, ab, ok2 := w.accessorOf(cb, ctxs)
+		if !ok1 || !ok2 || !aa.Known || !ab.Known || aa.Ctx != ab.Ctx || aa.What != ab.What || strings.HasSuffix(aa.What, "*") {
+			return false
+		}
+		a, b = ra, rb
+	}
+	return false
+}
+
+// skipEmptyBlocks: the first block at or after b that does something (blocks holding nothing but a jump are passed over).
+func skipEmptyBlocks(b *ssa.BasicBlock) *ssa.BasicBlock {
+	for i := 0; i < 8; i++ {
+		if len(b.Instrs) != 1 {
+			return b
+		}
+		if _, ok := b.Instrs[0].(*ssa.Jump); !ok || len(b.Succs) != 1 {
+			return b
+		}
+		b = b.Succs[0]
+	}
+	return b
 }
